@@ -31,7 +31,7 @@ def one_trace(rng, tid, prop):
             desig, vars_ = [], []
             for _ in range(nv):
                 j = rng.randrange(len(nm))
-                how = rng.choice(["index", "name", "poly"])
+                how = rng.choice(["index", "name", "poly", "element"])
                 if how == "index":
                     desig.append({"as": "index", "v": j})
                     vars_.append({"kind": "index", "i": j, "id": -1})
